@@ -291,7 +291,7 @@ func genPedersen(g *gen, cn string, c c17Curve) {
 		line(gg, s, zeros, "none", zero)          // C = pok = O: accepted
 		line(gg, s, zeros, "Pset", g.nzScalar(r)) // C = O, pok ≠ O
 		line(gg, s, zeros, "Cset", g.nzScalar(r)) // pok = O, C ≠ O
-		if c.hasNoSubG1() { // subgroup membership of each G1 argument: honest element + a point of cofactor order
+		if c.hasNoSubG1() {                       // subgroup membership of each G1 argument: honest element + a point of cofactor order
 			line(gg, s, v, "Ctor", g.nzScalar(r))
 			line(gg, s, v, "Ptor", g.nzScalar(r))
 		}
@@ -577,7 +577,6 @@ func genFflonk(g *gen, cn string, c c17Curve) {
 	}
 }
 
-
 func hexInt(i int) string { return strconv.FormatInt(int64(i), 16) }
 
 // a random permutation of l
@@ -649,7 +648,9 @@ func genPermConsist(g *gen, cn string, c c17Curve) {
 	r := c.modulus()
 	rm1 := new(big.Int).Sub(r, big.NewInt(1))
 	divides := func(m int) bool { return new(big.Int).Mod(rm1, big.NewInt(int64(m))).Sign() == 0 }
-	root := func(m int) *big.Int { return new(big.Int).Exp(c.frGen(), new(big.Int).Div(rm1, big.NewInt(int64(m))), r) }
+	root := func(m int) *big.Int {
+		return new(big.Int).Exp(c.frGen(), new(big.Int).Div(rm1, big.NewInt(int64(m))), r)
+	}
 	pow := func(b *big.Int, e int) *big.Int { return new(big.Int).Exp(b, big.NewInt(int64(e)), r) }
 	sizes := []int{2, 4, 8}
 	for m := 6; m < 40; m += 2 {
@@ -735,8 +736,93 @@ func genPermConsist(g *gen, cn string, c c17Curve) {
 var plkMuts = []string{"h1Set", "h2Set", "tSet", "zSet", "fSet", "hSet", "h1Other", "h2Other", "tOther", "zOther", "fOther", "hOther",
 	"bHSet", "bHOther", "sHSet", "sHOther", "cvSet", "cvAdd", "cvOther", "scvSet", "scvAdd", "scvOther", "sizeDouble", "sizeHalf", "gSet", "gNeg", "gSq", "idPair"}
 
+// CONSISTENT FORGERIES of plookup VECTOR proofs under a degenerate prover-supplied (size, g) (plkForge): same lattice as
+// genPermConsist. f, t are value vectors on the m-th roots of unity. g ∈ H: the entries of f on the orbit of 1 are drawn from
+// the entries of t on that orbit; off the orbit f ⊂ t (true statement) or random (false statement). g ∉ H: any f, t.
+func genPlkConsist(g *gen, cn string, c c17Curve) {
+	r := c.modulus()
+	rm1 := new(big.Int).Sub(r, big.NewInt(1))
+	divides := func(m int) bool { return new(big.Int).Mod(rm1, big.NewInt(int64(m))).Sign() == 0 }
+	root := func(m int) *big.Int {
+		return new(big.Int).Exp(c.frGen(), new(big.Int).Div(rm1, big.NewInt(int64(m))), r)
+	}
+	pow := func(b *big.Int, e int) *big.Int { return new(big.Int).Exp(b, big.NewInt(int64(e)), r) }
+	sizes := []int{2, 4, 8}
+	for m := 6; m < 40; m += 2 {
+		if m&(m-1) != 0 && divides(m) {
+			sizes = append(sizes, m)
+			break
+		}
+	}
+	if g.thorough() {
+		sizes = append(sizes, 3, 12, 16)
+	}
+	emit := func(m int, fg *big.Int, f, t []*big.Int) {
+		base := "kind=vector tau=" + hexBig(g.nzScalar(r)) + " n=" + hexInt(4*m+8) + " f=" + showL(f) + " t=" + showL(t) + " fb=- tb=- mut=consist i=0 m=" +
+			hexBig(g.nzScalar(r)) + " fm=" + hexInt(m) + " pw2=" + c17bs(m&(m-1) == 0) + " fg=" + hexBig(fg)
+		g.emit("C17 plookup %s %s %s", cn, base, c.plookup(parseKvs(strings.Fields(base)), true))
+	}
+	for _, m := range sizes {
+		if !divides(m) {
+			continue
+		}
+		w := root(m)
+		type cand struct {
+			fg *big.Int
+			k  int // fg = w^k; −1: not an m-th root of unity
+		}
+		cands := []cand{{w, 1 % m}, {big.NewInt(1), 0}, {big.NewInt(0), -1}, {g.nzScalar(r), -1}}
+		if m > 2 {
+			cands = append(cands, cand{pow(w, m/2), m / 2}, cand{pow(w, m-1), m - 1})
+		}
+		if m > 4 {
+			cands = append(cands, cand{pow(w, 2), 2}, cand{pow(w, 3), 3})
+		}
+		if divides(2 * m) {
+			cands = append(cands, cand{root(2 * m), -1})
+		}
+		for _, cd := range cands {
+			if m == 2 && cd.k < 0 && cd.fg.Sign() != 0 {
+				continue // g ∉ H, m = 2: g^(m−1) = g·1, the closure z(g^(m−1)) = 1 would need A(1) = B(1)
+			}
+			t := g.scalars(r, m)
+			onOrbit := make([]bool, m)
+			var orbit []int
+			if cd.k >= 0 {
+				for idx := 0; !onOrbit[idx]; idx = (idx + cd.k) % m {
+					onOrbit[idx] = true
+					orbit = append(orbit, idx)
+				}
+			}
+			f := make([]*big.Int, m)
+			for i := range f {
+				f[i] = t[g.rng.intn(m)]
+				if onOrbit[i] {
+					f[i] = t[orbit[g.rng.intn(len(orbit))]]
+				}
+			}
+			if cd.fg.Sign() == 0 {
+				f[0] = t[0]
+			}
+			emit(m, cd.fg, f, t)
+			ff := append([]*big.Int{}, f...)
+			changed := 0
+			for i := m - 2; i >= 1 && changed < 2; i-- { // not the position of g^(m−1) for a primitive g, not position 0
+				if !onOrbit[i] {
+					ff[i] = g.scalar(r)
+					changed++
+				}
+			}
+			if changed > 0 {
+				emit(m, cd.fg, ff, t)
+			}
+		}
+	}
+}
+
 func genPlookup(g *gen, cn string, c c17Curve) {
 	r := c.modulus()
+	genPlkConsist(g, cn, c)
 	emit := func(f, t, fb, tb []*big.Int, mut string, i int, m *big.Int) {
 		n := len(f) + 1
 		if len(t) > n {
@@ -981,7 +1067,9 @@ func genMpcsetup(g *gen, cn string, c c17Curve) {
 			}
 			return o
 		}
-		ratio := func(g1, g2 [][]*big.Int) { g.emit("C17 mpcsetup %s kind=ratio g1=%s g2=%s", cn, showLL(g1), showLL(g2)) }
+		ratio := func(g1, g2 [][]*big.Int) {
+			g.emit("C17 mpcsetup %s kind=ratio g1=%s g2=%s", cn, showLL(g1), showLL(g2))
+		}
 		for rep := 0; rep < g.budget(2, 8); rep++ {
 			q, k := g.nzScalar(r), g.nzScalar(r)
 			// (a) mirrored / proportional non-geometric sequences, same slice layout in both groups
@@ -1036,7 +1124,7 @@ func genMpcsetup(g *gen, cn string, c c17Curve) {
 			}
 		}
 	}
-	g.emit("C17 mpcsetup %s kind=ratio g1=%s g2=%s", cn, "1", "1,2")       // slice shorter than 2
+	g.emit("C17 mpcsetup %s kind=ratio g1=%s g2=%s", cn, "1", "1,2")     // slice shorter than 2
 	g.emit("C17 mpcsetup %s kind=ratio g1=%s g2=%s", cn, "1,2;2,4", "_") // no G2 slice
 }
 
